@@ -135,6 +135,9 @@ class G:
             # a bare variable as a condition: true when it holds anything but None (0, 0.0 and "" exist)
             t, v = r.choice(self.anyvars)
             return (t, f"(BVarSet {v})")
+        if c < 0.655 and not self.textonly:
+            # all() / missing(): every header has a value on the line (as many cells as headers, none blank) / not so
+            return r.choice([("all()", f"(BAllCells {len(HDR)}%nat)"), ("missing()", f"(BNot (BAllCells {len(HDR)}%nat))")])
         if c < 0.66:
             # empty() with several arguments: true only when every one of them is empty
             cols = r.sample([5, 5, 3, 4], r.choice([2, 3]))
@@ -338,7 +341,12 @@ def corner_programs():
     # equality fall back to text: not in the CORE model, so empty numeric cells appear only here)
     E = [HDR[:], ["r1", "", "5", "a", "b"], ["r2", "3", "", "a", "b"], ["r3", "", "", "q", "b"], ["r4", "2", "2", "a", "q"], ["r5", "10", "", "a", "b"]]
     Z0 = [HDR[:], ["r1", "0", "0", "a", "b"], ["r2", "3", "0", "a", "b"], ["r3", "0", "7", "q", "b"], ["r4", "2", "2", "a", "q"]]
+    A = [HDR[:], ["r1", "1", "2", "a", "b", "z"], ["r2", "1", "2", "a", "b", "z", "extra"], ["r3", "1", "2", "a", "b"], ["r4", "1", "2", "a", " ", "z"], ["r5", "0", "2", "a", "b", "0"]]
     return [
+        # all() / missing(): as many cells as headers, none blank — a longer record, a shorter one, a blank cell
+        P([("all()", f"(CB (BAllCells {len(HDR)}%nat))")], rows=A),
+        P([("missing()", f"(CB (BNot (BAllCells {len(HDR)}%nat)))")], rows=A),
+        P([("all()", f"(CB (BAllCells {len(HDR)}%nat))")]),
         # eq() / equals() is the function form of '==': a cell holding 0 equals the number 0
         P([("eq(#n, 0)", "(CB (BEq (NHdr 1) (NLit 0)))")], rows=Z0),
         P([("equals(add(#n, 0), #m)", "(CB (BEq (NAdd (NHdr 1) (NLit 0)) (NHdr 2)))"), ("#n == 0", "(CB (BEqEq (NHdr 1) (NLit 0)))")], rows=Z0, AND=False),
